@@ -76,6 +76,11 @@ def run(v):
                                 driver={"defs": D.alt_family(SEED + 1062, 20, budget=10**9) + D.adj_family(SEED + 1063, 12, budget=10**9),
                                         "n": 8000 if q else 150000, "gen": lambda rnd, d: [("line", linegen.group_line(rnd, d, 0.8))]})
     cov = merge_cov(cov, gcov, "groupline")
+    # environment-backed members of choices: a set-but-invalid variable is not absence
+    efam = D.alt_env_family(SEED + 64, 16 if q else 80, maxlen=2 if q else 3, budget=1500 if q else 12000)
+    ecov = run_cmdline_property(v, efam, None, replay_cfg="MC_GroupLine_replay.cfg", module="MC_GroupLine",
+                                signature=cmdline_sig.alt_env_sig, trace_module="GroupLineTrace", name="C06e")
+    cov = merge_cov(cov, ecov, "alt_env")
     cov["rule"] = ("valued arguments (u32 conversion, guard) under one/opt/many/some/fallback/fallback_with/last at top level, "
                    "with positionals, inside subcommands; all lines up to maxlen over values {valid, guard-failing, unconvertible}; "
                    "message text required to carry the conversion/guard text when the repaired line is accepted")
